@@ -109,6 +109,14 @@ def multi_rule_block(rep, rnd, n):
             for _ in range(3):
                 metrics.add(b".".join(rnd.choice(MULTI_COMPS) if f == b"*" else f for f in pat.split(b".")))
         cfgs.append((rules, sorted(metrics)))
+    # two rules whose template text followed by the wildcard count reads the same: ("$1", 11) / ("$11", 1), ("x", 10) / ("x1", 0), ...
+    for t in (b"$1", b"x", b"${2}_", b"a$1b", b"$1$"):
+        for (na, nb, suffix) in ((11, 1, b"1"), (10, 0, b"1"), (12, 2, b"1"), (10, 0, b"10"), (21, 1, b"2")):
+            ra = (b".".join([b"pa"] + [b"*"] * na), [t, t])
+            rb = (b".".join([b"pb"] + [b"*"] * nb), [t + suffix, t + suffix])
+            for order in ([ra, rb], [rb, ra]):
+                ms = [b".".join([b"pa"] + [b"u%d" % k for k in range(na)]), b".".join([b"pb"] + [b"w%d" % k for k in range(nb)])]
+                cfgs.append((order, sorted(ms)))
     cases = []
     for rules, metrics in cfgs:
         g = (None, [GM.rule(pat, b"n%d" % i, labels=[(b"l0", t[0]), (b"l1", t[1])], help=b"r%d" % i) for i, (pat, t) in enumerate(rules)])
